@@ -928,23 +928,13 @@ func msgClass(m string) string {
 
 // jsonFeature names the most telling JSON-relevant feature of a value (refines signatures).
 func jsonFeature(v hs.Value) string {
+	if v == nil {
+		return "absent"
+	}
 	feats := []struct {
 		name string
 		pred func(hs.Value) bool
 	}{
-		{"anyobj-nested", func(x hs.Value) bool {
-			o, ok := x.(*hs.ObjV)
-			if !ok || !o.Any {
-				return false
-			}
-			for _, e := range o.M {
-				if _, isO := e.(*hs.ObjV); isO {
-					return true
-				}
-			}
-			return false
-		}},
-		{"null", func(x hs.Value) bool { _, ok := x.(hs.NullV); return ok }},
 		{"none-in-list", func(x hs.Value) bool {
 			l, ok := x.(*hs.ListV)
 			if !ok {
@@ -964,6 +954,19 @@ func jsonFeature(v hs.Value) string {
 			}
 			for _, e := range o.M {
 				if op, isO := e.(hs.OptV); isO && op.Inner == nil {
+					return true
+				}
+			}
+			return false
+		}},
+		{"null", func(x hs.Value) bool { return isNullish(x) }},
+		{"anyobj-nested", func(x hs.Value) bool {
+			o, ok := x.(*hs.ObjV)
+			if !ok || !o.Any {
+				return false
+			}
+			for _, e := range o.M {
+				if _, isO := e.(*hs.ObjV); isO {
 					return true
 				}
 			}
@@ -1156,8 +1159,9 @@ func checkJSON(c JSONCase) *pk.Failure {
 		texts[r.name] = text
 		if !jsonEq(v, got) {
 			cls := diffClass(canonJSON(v, false), canonJSON(got, false))
-			if !strings.HasPrefix(cls, "kind:") {
-				cls += ":" + jsonFeature(v)
+			if !strings.Contains(cls, "kind:") {
+				site, _ := diffSite(canonJSON(v, false), canonJSON(got, false))
+				cls += ":" + jsonFeature(site)
 			}
 			fails = append(fails, pk.Failf("json", "json-roundtrip:"+r.name+":"+cls, "[%s] round trip changed the value: got %s\n  json = %s\n%s", r.name, show(got), text, ctx))
 			continue
@@ -1237,7 +1241,16 @@ type emitter struct {
 	n   int
 }
 
-func (e *emitter) expr(v hs.Value) string {
+func (e *emitter) temp(t hs.Type, init string) string {
+	e.n++
+	name := fmt.Sprintf("t%d", e.n)
+	e.pre = append(e.pre, fmt.Sprintf("    let %s: %s = %s;", name, t.Src(), init))
+	return name
+}
+
+// expr renders v (of type t) as an expression; literals whose type the analyzer cannot infer on
+// their own (empty lists, none, any-objects) are bound to annotated temporaries first.
+func (e *emitter) expr(v hs.Value, t hs.Type, top bool) string {
 	switch x := v.(type) {
 	case hs.IntV:
 		return hs.PrintExpr(hs.Paren{X: hs.IntLit{V: int64(x)}})
@@ -1253,33 +1266,42 @@ func (e *emitter) expr(v hs.Value) string {
 	case hs.NullV:
 		return "null"
 	case *hs.ListV:
+		if t.K != hs.KList {
+			t = dynType(v)
+		}
+		if len(x.Elems) == 0 {
+			if top {
+				return "[]"
+			}
+			return e.temp(t, "[]")
+		}
 		ps := make([]string, len(x.Elems))
 		for i, el := range x.Elems {
-			ps[i] = e.expr(el)
+			ps[i] = e.expr(el, *t.Elem, false)
 		}
 		return "[" + strings.Join(ps, ", ") + "]"
 	case *hs.ObjV:
 		if x.Any {
-			e.n++
-			name := fmt.Sprintf("t%d", e.n)
-			var sets []string
+			name := e.temp(hs.TAnyObj, "new { ? }")
 			for _, k := range x.Keys {
-				sets = append(sets, fmt.Sprintf("    %s.set(%s, %s);", name, hs.QuoteStr(k), e.expr(x.M[k])))
+				e.pre = append(e.pre, fmt.Sprintf("    %s.set(%s, %s);", name, hs.QuoteStr(k), e.expr(x.M[k], dynType(x.M[k]), false)))
 			}
-			e.pre = append(e.pre, fmt.Sprintf("    let %s: { ? } = new { ? };", name))
-			e.pre = append(e.pre, sets...)
 			return name
 		}
 		ps := []string{}
 		for _, k := range x.Keys {
-			ps = append(ps, k+": "+e.expr(x.M[k]))
+			ft, _ := t.FieldType(k)
+			ps = append(ps, k+": "+e.expr(x.M[k], ft, false))
 		}
 		return "new { " + strings.Join(ps, ", ") + " }"
 	case hs.OptV:
 		if x.Inner == nil {
-			return "none"
+			if top {
+				return "none"
+			}
+			return e.temp(t, "none")
 		}
-		return "?(" + e.expr(x.Inner) + ")"
+		return "?(" + e.expr(x.Inner, *t.Elem, false) + ")"
 	}
 	panic(fmt.Sprintf("emit: %T", v))
 }
@@ -1288,7 +1310,7 @@ const secMark = "--c13--"
 
 func buildProg(v hs.Value, t hs.Type) string {
 	e := &emitter{}
-	ex := e.expr(v)
+	ex := e.expr(v, t, true)
 	var b strings.Builder
 	b.WriteString("fn main() {\n")
 	for _, l := range e.pre {
@@ -1385,7 +1407,7 @@ var _ = sb.DefaultLimits
 func normLines(s string) []string {
 	ls := strings.Split(s, "\n")
 	for i := range ls {
-		ls[i] = strings.TrimSuffix(ls[i], ",")
+		ls[i] = strings.TrimRight(ls[i], ",")
 	}
 	sort.Strings(ls)
 	return ls
@@ -1448,4 +1470,14 @@ func checkDisplay(c DisplayCase) *pk.Failure {
 		}
 	}
 	return pk.Failf("display", "display-differs:"+displayFeature(v), "the libraries render the same value differently:\n  vm:   %q\n  tree: %q\n%s", out["vm"], out["tree"], ctx)
+}
+
+func isNullish(v hs.Value) bool {
+	switch x := v.(type) {
+	case hs.NullV:
+		return true
+	case hs.OptV:
+		return x.Inner == nil
+	}
+	return false
 }
